@@ -46,6 +46,12 @@ type State struct {
 	dead     bool
 	depth    int
 	nonnil   map[string]bool
+	iters    []iterState
+}
+
+type iterState struct {
+	rng     *ssa.Range
+	visited *T
 }
 
 func (st *State) top() *Frame { return st.frames[len(st.frames)-1] }
@@ -74,6 +80,7 @@ func (st *State) cellSet(c *cell, v Val) { st.cellVals[c] = v }
 
 func (st *State) clone() *State {
 	n := &State{alloc: st.alloc, alloc0: st.alloc0, pre: st.pre, epoch: st.epoch, depth: st.depth}
+	n.iters = append([]iterState(nil), st.iters...)
 	n.nonnil = make(map[string]bool, len(st.nonnil))
 	for k := range st.nonnil {
 		n.nonnil[k] = true
@@ -986,6 +993,9 @@ func (x *Exec) havocLoop(st *State, fr *Frame, li *loopInfo) {
 			continue // allocated inside the loop
 		}
 		st.cellSet(c, x.freshVal(st, c.typ, "lh!"+c.name))
+	}
+	for i := range st.iters {
+		st.iters[i].visited = Fresh("visited", st.iters[i].visited.Sort)
 	}
 	newAlloc := Fresh("A", SInt)
 	st.assume(Ge(newAlloc, st.alloc))
